@@ -110,6 +110,22 @@ Definition encode_segment (c : option compressor) (sc : bool) (p : list Z) : res
 
 (* ------------------------------------------------------------------ segment/decode.go *)
 
+(* decodeSegmentHeader, second half: the fields of a header word whose CRC-24 has been verified *)
+Definition header_of_data (compressed : bool) (hd : N) (crc : N) : header :=
+  let '(clen, ulen, hd1) :=
+    if compressed then
+      let cl := N.land hd max_payload_N in
+      let hd1 := N.shiftr hd 17 in
+      let ul := N.land hd1 max_payload_N in
+      if N.eqb ul 0 then (0%N, cl, hd1)       (* the server chose not to compress *)
+      else (cl, ul, hd1)
+    else (0%N, N.land hd max_payload_N, hd) in
+  let hd2 := N.shiftr hd1 17 in
+  let sc := N.eqb (N.land hd2 1) 1 in
+  mkHeader sc (wrap_i32 (Z.of_N ulen)) (wrap_i32 (Z.of_N clen)) crc.
+
+Definition is_some {A} (o : option A) : bool := match o with Some _ => true | None => false end.
+
 (* decodeSegmentHeader *)
 Definition decode_segment_header (c : option compressor) (bs : list Z) : result (header * list Z) :=
   let hlen := match c with None => hlen_uncompressed | Some _ => hlen_compressed end in
@@ -121,20 +137,7 @@ Definition decode_segment_header (c : option compressor) (bs : list Z) : result 
       | Ok (expected, r2) =>
           let actual := checksum_koopman hd hlen in
           if negb (N.eqb actual expected) then Err
-          else
-            let '(clen, ulen, hd1) :=
-              match c with
-              | None => (0%N, N.land hd max_payload_N, hd)
-              | Some _ =>
-                  let cl := N.land hd max_payload_N in
-                  let hd1 := N.shiftr hd 17 in
-                  let ul := N.land hd1 max_payload_N in
-                  if N.eqb ul 0 then (0%N, cl, hd1)       (* the server chose not to compress *)
-                  else (cl, ul, hd1)
-              end in
-            let hd2 := N.shiftr hd1 17 in
-            let sc := N.eqb (N.land hd2 1) 1 in
-            Ok (mkHeader sc (wrap_i32 (Z.of_N ulen)) (wrap_i32 (Z.of_N clen)) actual, r2)
+          else Ok (header_of_data (is_some c) hd actual, r2)
       end
   end.
 
